@@ -19,6 +19,14 @@ player_<var> events, game-flow events):
   nonpersist     devices without persistence start every activation of their mode from the configured values.
   pv_model       exact reference model of the always-running variable_player table, for all players.
   var_event      every write to a player variable (tapped at Player.__setattr__) vs. the player_<var> events posted.
+  mode_binding   a game mode alive during a ball was started for that ball (else its devices hold another player's
+                 objects).
+
+Held mode stops: in a share of cases a queue_relay_player + delayed event_player entry holds mode_m2_stopping and/or
+mode_base_stopping for 0.5-5 virtual seconds ("outro"); generated op patterns request the stop, drain the ball within
+the hold, post stimuli and only then let the hold run out.  Ball end has to wait for such a mode.  Attribution: a game
+mode that is still active when ball_ended is posted is remembered ("survivor"); statement-level violations observed
+afterwards in that game carry the survivor's mechanism signature (the oracle's own observation is kept in the detail).
 """
 import copy
 
@@ -57,6 +65,12 @@ ASSUMPTIONS = [
     "interpretation: restart_modes_on_next_ball is a player variable, so a restart_on_next_ball mode runs at a player's "
     "ball start iff it ran at the end of THAT player's previous ball (or starts with every ball by configuration)",
     "devices that need ball hardware (multiball locks, ball holds, ball saves) are outside the generated envelope",
+    "while a mode's stop is held (mode active and stopping) its devices are still loaded for the player who is up: "
+    "their stimuli are that player's; device_view skips such a mode; whether a mode that is stopping at ball end counts "
+    "as running for restart_on_next_ball is not specified (mode_restart skips it)",
+    "a mode alive after ball_ended is not a verdict by itself; it only names the mechanism of violations seen later",
+    "exact-instant coincidence not generated: a held stop never runs out in the same virtual instant as an operation "
+    "(a mode start requested in the loop iteration in which the ball_ending queue completes belongs to neither ball)",
 ]
 HORIZONS = {"settle_after_op_s": 0.05}
 TIERS = {
@@ -64,9 +78,10 @@ TIERS = {
     "thorough": {"cases": 60000, "batch": 250, "case_timeout": 180},
 }
 MIN_EVALS = {"quick": {"isolation": 60000, "restore": 2000, "initial": 20000, "device_view": 250000, "pv_model": 500000,
-                       "var_event": 80000, "nonpersist": 8000, "mode_restart": 4000},
+                       "var_event": 80000, "nonpersist": 8000, "mode_restart": 4000, "mode_binding": 40000},
              "thorough": {"isolation": 2400000, "restore": 80000, "initial": 750000, "device_view": 9000000,
-                          "pv_model": 18000000, "var_event": 3000000, "nonpersist": 300000, "mode_restart": 160000}}
+                          "pv_model": 18000000, "var_event": 3000000, "nonpersist": 300000, "mode_restart": 160000,
+                          "mode_binding": 1500000}}
 SHRINK_KEYS = ["ops"]
 
 ABSENT = "<absent>"
@@ -229,7 +244,7 @@ def _run(case, tap, G, VMachine, MpfCrash):
     m2_restart = bool(cfg["m2"]["mode"].get("restart_on_next_ball"))
 
     clauses = {"isolation": 0, "restore": 0, "initial": 0, "device_view": 0, "pv_model": 0, "var_event": 0,
-               "nonpersist": 0, "mode_restart": 0, "no_crash": 0}
+               "nonpersist": 0, "mode_restart": 0, "mode_binding": 0, "no_crash": 0}
     obs = {"ops_applied": 0, "ops_skipped": 0, "turns": 0, "balls": 0, "extra_balls": 0, "games": 0, "players_added": 0,
            "writes_seen": 0, "var_events_seen": 0, "targeted_writes": 0, "hook_posts": 0, "m2_activations": 0,
            "diverged_isolation_evals": 0, "max_players": 0, "restores_with_divergence": 0}
@@ -238,6 +253,13 @@ def _run(case, tap, G, VMachine, MpfCrash):
     harness = []
 
     def V(clause, sig, **detail):
+        sv = S.get("survivor")
+        if sv and clause not in ("var_event", "pv_model", "no_crash"):
+            # a game mode was still alive when an earlier ball of this game had ended: its handlers/devices kept acting on
+            # the player of that ball.  Name that mechanism; what the statement-level oracle saw is kept in the detail.
+            detail = dict(detail, observed_as=sig, survivor=sv)
+            sig = sv["sig"]
+            S["abort"] = True
         if sig in sigs_seen or len(viol) >= 12:
             return
         sigs_seen.add(sig)
@@ -245,7 +267,7 @@ def _run(case, tap, G, VMachine, MpfCrash):
 
     S = {"G": 0, "plist": None, "last": {}, "phase": "none", "owner": None, "prev": None, "park": {}, "model": {},
          "ball": False, "started": [], "had_ball": set(), "loaded_once": set(), "act": {"base": 0, "m2": 0},
-         "act_seen": {"base": 0, "m2": 0}, "m2_at_end": {}, "game_over": False, "opno": -1, "op": None, "known": set()}
+         "act_seen": {"base": 0, "m2": 0}, "m2_at_end": {}, "epoch": 0, "stamp": {}, "abort": False, "survivor": None, "game_over": False, "opno": -1, "op": None, "known": set()}
 
     with VMachine(G.machine_config(cfg), modes={"base": cfg["base"], "m2": cfg["m2"]}, kind="fake") as vm:
         m = vm.machine
@@ -347,6 +369,8 @@ def _run(case, tap, G, VMachine, MpfCrash):
         # ---- game-flow taps ---------------------------------------------------------------------------
         def on_game_started(**kwargs):
             S["G"] += 1
+            S["epoch"] += 1
+            S["survivor"] = None
             obs["games"] += 1
             S.update(plist=m.game.player_list, last={}, phase="pre", owner=None, prev=None, park={}, model={}, ball=False,
                      game_over=False, known=set())
@@ -374,10 +398,25 @@ def _run(case, tap, G, VMachine, MpfCrash):
 
         def on_ball_will_end(**kwargs):
             S["ball"] = False
-            S["m2_at_end"][(S["G"], S["owner"])] = mode_active("m2")
+            mo = m.modes["m2"]
+            # a stop still in progress (held) at ball end: whether the mode counts as "running" is not specified
+            S["m2_at_end"][(S["G"], S["owner"])] = "stopping" if (mo.active and mo.stopping) else bool(mo.active)
 
         def on_ball_ended(**kwargs):
             S["ball"] = False
+            S["epoch"] += 1         # everything a game mode holds belongs to the ball that just ended
+            for name in ("base", "m2"):
+                mo = m.modes[name]
+                if mo.active and not S.get("survivor"):
+                    st = S["stamp"].get(name)
+                    if st is not None and not st["ball_in_progress"]:
+                        cause = "C11:mode_started_while_ball_was_ending_survives_into_next_ball"
+                    elif mo.stopping:
+                        cause = "C11:ball_end_did_not_wait_for_stopping_mode"
+                    else:
+                        cause = "C11:game_mode_survived_ball_end"
+                    S["survivor"] = {"sig": cause, "mode": name, "started": st, "stopping": bool(mo.stopping),
+                                     "ball_ended_in_op": S["opno"], "player": S["owner"]}
             n = S["owner"]
             now = checkpoint(allowed_now(), "ball_ended")
             if n in now:
@@ -389,6 +428,8 @@ def _run(case, tap, G, VMachine, MpfCrash):
         def on_mode_started(which):
             def h(**kwargs):
                 S["act"][which] += 1
+                S["stamp"][which] = {"epoch": S["epoch"], "owner": S["owner"], "ball_in_progress": S["ball"],
+                                     "phase": S["phase"], "op_index": S["opno"]}
             return h
 
         m.events.add_handler("game_started", guard(on_game_started), priority=2000000)
@@ -417,8 +458,11 @@ def _run(case, tap, G, VMachine, MpfCrash):
             started, S["started"] = S["started"], []
             for n in started:
                 # which modes run is per player too (restart_modes_on_next_ball is a player variable)
+                at_end = S["m2_at_end"].get((S["G"], n), False)
+                if at_end == "stopping" and not m2_auto:
+                    continue
                 clauses["mode_restart"] += 1
-                exp_m2 = m2_auto or (m2_restart and S["m2_at_end"].get((S["G"], n), False))
+                exp_m2 = m2_auto or (m2_restart and bool(at_end))
                 if mode_active("m2") != exp_m2:
                     V("mode_restart", "C11:mode_restart_on_next_ball_not_per_player", player=n, m2_active=mode_active("m2"),
                       expected=exp_m2, was_active_at_own_last_ball_end=S["m2_at_end"].get((S["G"], n)), **where())
@@ -482,8 +526,8 @@ def _run(case, tap, G, VMachine, MpfCrash):
                 S["act_seen"][mode] = act
                 if mode == "m2" and activated:
                     obs["m2_activations"] += 1
-                if not mode_active(mode) or not S["ball"] or S["phase"] != "turn" or n not in now:
-                    continue
+                if not mode_active(mode) or S["phase"] != "turn" or n not in now:
+                    continue        # (a mode may also be started while a held ball end is still waiting)
                 snap = now[n]
                 first = (S["G"], n, mode) not in S["loaded_once"]
                 S["loaded_once"].add((S["G"], n, mode))
@@ -607,7 +651,27 @@ def _run(case, tap, G, VMachine, MpfCrash):
                 if not (k["value"] == k["prev_value"] and k["change"] in (0, False) and cur == k["value"]):
                     V("var_event", "C11:player_var_event_without_write", event=event, kwargs=k, current=cur, **where())
 
+        def check_mode_binding():
+            """A game mode that is alive during a ball was started for this ball (game modes stop at ball end and
+            restart with the next player's objects).  A survivor still holds the previous player's state objects."""
+            if not S["ball"] or S["phase"] != "turn":
+                return
+            for name in ("base", "m2"):
+                mo = m.modes[name]
+                if not mo.active:
+                    continue
+                clauses["mode_binding"] += 1
+                st = S["stamp"].get(name)
+                if st is None or st["epoch"] == S["epoch"] or st["owner"] == S["owner"]:
+                    continue        # same player again (extra ball / one player game): same objects, nothing mis-attributed
+                sig = "C11:game_mode_bound_to_player_of_an_earlier_ball"
+                V("mode_binding", sig, mode=name, started=st, stopping=bool(mo.stopping), **where())
+                S["abort"] = True
+
         def after_op():
+            check_mode_binding()
+            if S["abort"]:
+                return      # everything after this is a consequence: devices of that mode act on the wrong player
             now = checkpoint(allowed_now(), "after_op")
             check_restore(now)
             check_first_load_and_fresh(now)
@@ -698,10 +762,13 @@ def _run(case, tap, G, VMachine, MpfCrash):
                 obs["ops_applied" if ok else "ops_skipped"] += 1
                 if ok:
                     shape.append({"start_game": "S", "add_player": "a", "drain": "d", "end_game": "E", "adv": "t"}.get(
-                        op[0]) or ("p" if op[1] in pv_table else "m" if op[1].startswith("x_m2_") else "e"))
+                        op[0]) or ("p" if op[1] in pv_table else "m" if op[1].startswith("x_m2_") else
+                                   "h" if op[1] == "x_base_halt" else "e"))
                 after_op()
                 if harness:
                     raise RuntimeError("C11 harness handler failed:\n" + harness[0])
+                if S["abort"]:
+                    break
         except MpfCrash as e:
             crashed = True
             V("no_crash", _crash_sig(e), exc=repr(e)[:700], **where())
